@@ -39,7 +39,7 @@ META = {
     "technique": "TLA+ function spec (LibValid.tla), TLC-generated cases replayed into Library and the real binary, verdicts by TLC",
 }
 FULL = [-20, -15, -10, 0, 5, 10, 15, 20, 100]
-SMALL = [-10, 0, 15, 20]
+SMALL = [-10, 0, 15]
 
 
 def tlc_mode(mode, env, timeout=1800, xmx="4g"):
@@ -64,7 +64,7 @@ def counts(r, *names):
 def gen_params(tier, seed):
     rnd = random.Random(seed)
     if tier == "quick":
-        nsample, nshards, b2 = 1500, 2, SMALL
+        nsample, nshards, b2 = 600, 1, SMALL
     else:
         nsample, nshards, b2 = 20000, 8, FULL
     sample = [[rnd.randrange(1 << 20) for _ in range(rnd.choice((2, 3, 3)))] for _ in range(nsample)]
@@ -91,7 +91,7 @@ def judge(cases, obs, work, tag):
     vlib.write_ndjson(cf, cases)
     vlib.write_ndjson(of, obs)
     r = tlc_mode("judge", {"CASES": cf, "OBS": of, "OUT": bf})
-    c = counts(r, "JUDGED", "OPEN", "INVALID", "BOUNDARY", "BAD")
+    c = counts(r, "JUDGED", "OPEN", "INVALID", "BOUNDARY", "UBOUNDARY", "BAD")
     bad = vlib.read_ndjson(bf)
     if len(bad) != c["BAD"]:
         raise vlib.InfraError("LibValid.tla verdict/output mismatch")
@@ -104,11 +104,16 @@ def valid_part(tier, seed, work, exe, cases_override=None):
         params = gen_params(tier, seed)
         pf = os.path.join(work, "params-laws.json")
         vlib.write_ndjson(pf, [dict(params, shard=0, sample=[])])
-        tlc_mode("laws", {"PARAMS": pf})
-        shards = generate(params, work)
+        t1 = time.time()
+        with concurrent.futures.ThreadPoolExecutor(max_workers=2) as ex0:
+            fl = ex0.submit(tlc_mode, "laws", {"PARAMS": pf})
+            shards = generate(params, work)
+            fl.result()
+        gen_s = round(time.time() - t1, 1)
     else:
         shards = [cases_override]
-    tot = {"unit": {}, "e2e-lit": {}, "e2e-var": {}}
+    tot = {}
+    steps = []
     shapes = {}
     nlines = 0
 
@@ -116,14 +121,19 @@ def valid_part(tier, seed, work, exe, cases_override=None):
         cases = shards[k]
         if not cases:
             return []
-        res = []
+        t1 = time.time()
         obs = libvalid.run_unit(exe, cases, work, str(k))
-        res.append(("unit",) + judge(cases, obs, work, "u%d" % k))
+        t2 = time.time()
         sub = os.path.join(work, "s%d" % k)
         os.makedirs(sub, exist_ok=True)
         eobs, n = libvalid.run_e2e(cases, sub, jobs=2)
-        for style in ("lit", "var"):
-            res.append(("e2e-" + style,) + judge(cases, eobs[style], work, "%s%d" % (style, k)))
+        allc, allo = [], []
+        for binding, o in (("unit", obs), ("e2e-lit", eobs["lit"]), ("e2e-var", eobs["var"])):
+            allc += [dict(c, binding=binding) for c in cases]
+            allo += o
+        t3 = time.time()
+        res = judge(allc, allo, work, "j%d" % k)
+        steps.append({"shard": k, "unit_s": round(t2 - t1, 1), "e2e_s": round(t3 - t2, 1), "judge_s": round(time.time() - t3, 1)})
         return res, n
     with concurrent.futures.ThreadPoolExecutor(max_workers=4) as ex:
         results = list(ex.map(one, range(len(shards))))
@@ -134,19 +144,19 @@ def valid_part(tier, seed, work, exe, cases_override=None):
     for r in results:
         if not r:
             continue
-        rs, n = r
+        (c, bad), n = r
         nlines += n
-        for binding, c, bad in rs:
-            for k, v in c.items():
-                tot[binding][k] = tot[binding].get(k, 0) + v
-            for b in bad:
-                s = shapes.setdefault(b["shape"], {"bindings": set(), "examples": [], "n": 0, "ids": []})
-                s["bindings"].add(binding)
-                s["n"] += 1
-                if len(s["examples"]) < 5:
-                    s["examples"].append(dict(b, binding=binding))
-                    s["ids"].append(b["id"])
-    cov = {"valid_expressions": sum(len(s) for s in shards), "valid_call_lines": nlines, "valid_counts": tot}
+        for k, v in c.items():
+            tot[k] = tot.get(k, 0) + v
+        for b in bad:
+            s = shapes.setdefault(b["shape"], {"bindings": set(), "examples": [], "n": 0, "ids": []})
+            s["bindings"].add(b["binding"])
+            s["n"] += 1
+            if len(s["examples"]) < 5:
+                s["examples"].append(b)
+                s["ids"].append(b["id"])
+    cov = {"valid_expressions": sum(len(s) for s in shards), "valid_call_lines": nlines, "valid_counts": tot,
+           "steps_wall_s": {"laws_and_gen": gen_s if cases_override is None else 0, "shards": steps}}
     return cov, shapes, byid
 
 
@@ -218,7 +228,8 @@ def load_signature(b):
     if b["signal"]:
         m = re.search(r"what\(\):\s*(.*)", b.get("out", ""))
         what = re.sub(r"'[^']*'", "'..'", m.group(1).strip()) if m else ""
-        return "signal%d:%s" % (b["signal"], what)
+        what = re.sub(r"(to integer failed).*", r"\1", what)   # the same escape of strToInt's exception, whatever the detail
+        return "signal%d:%s" % (b["signal"], re.sub(r"\s+", "_", what))
     return "exit%s-without-message" % b["rc"]
 
 
@@ -231,10 +242,13 @@ def load_violations(lbad, texts, work):
     for b in sorted(lbad, key=lambda b: len(texts[b["name"]])):
         sig = load_signature(b)
         mintext, path = None, None
-        if b["signal"] and sig.endswith(":") and nmin < 12:
-            nmin += 1
-            mintext, path = libvalid.minimise(texts[b["name"]], d, b["signal"], budget=120)
-            sig += path
+        if b["signal"] and sig.endswith(":"):
+            if nmin < 40:
+                nmin += 1
+                mintext, path = libvalid.minimise(texts[b["name"]], d, b["signal"], budget=100)
+                sig += path
+            else:
+                sig += "not-minimised"
         g = groups.setdefault(sig, {"n": 0, "first": b, "min": None})
         g["n"] += 1
         if mintext is not None and (g["min"] is None or len(mintext) < len(g["min"])):
@@ -262,8 +276,18 @@ def main(tier, seed, replay=None):
         return do_replay(replay, work, exe)
     violations = []
 
-    vcov, shapes, byid = valid_part(tier, seed, work, exe)
-    t_valid = time.time() - t0
+    # the three parts are independent: run them side by side (each is mostly waiting for TLC / cppcheck processes)
+    def timed(f, *a):
+        t = time.time()
+        r = f(*a)
+        return r, time.time() - t
+    with concurrent.futures.ThreadPoolExecutor(max_workers=3) as ex:
+        fut_v = ex.submit(timed, valid_part, tier, seed, work, exe)
+        fut_f = ex.submit(timed, flags_part, work)
+        fut_l = ex.submit(timed, load_part, tier, seed, work)
+        (vcov, shapes, byid), t_valid = fut_v.result()
+        (fc, fbad, fcases), t_flags = fut_f.result()
+        (lc, lbad, texts), t_load = fut_l.result()
     for shape, s in sorted(shapes.items()):
         ex = s["examples"][0]
         payload = {"kind": "valid", "shape": shape, "count": s["n"], "bindings": sorted(s["bindings"]), "examples": s["examples"],
@@ -275,29 +299,25 @@ def main(tier, seed, replay=None):
                                    % (ex["valid"], ex["arg"], ex["expected"], ex["observed"], s["n"], ",".join(sorted(s["bindings"]))),
                            "replay": p})
 
-    fc, fbad, fcases = flags_part(work)
     for b in fbad:
         key = "flags:%s:%s:%s:pos%d:%s" % ("+".join(sorted(b["flags"])) or "none", b["name"], b["lang"], b["pos"], b["param"])
         p = vlib.save_replay(PID, "flags-" + vlib.digest(key), {"kind": "flags", "bad": b, "cases": [c for c in fcases if c["id"] == b["id"]]})
         violations.append({"key": key, "what": "call with argument `%s` (%s) of a function with %s on argument %d: expected %s, observed %s"
                                                % (b["text"], b["decl"], b["flags"], b["pos"], b["expected"], b["observed"]), "replay": p})
 
-    t_flags = time.time() - t0 - t_valid
-    lc, lbad, texts = load_part(tier, seed, work)
-    t_load = time.time() - t0 - t_valid - t_flags
     violations += load_violations(lbad, texts, work)
 
     rc, new, known = vlib.verdict(PID, violations)
-    u = vcov["valid_counts"]["unit"]
+    u = vcov["valid_counts"]
     samples = []
     for i in sorted(byid)[:: max(1, len(byid) // 4)][:4]:
         c = byid[i]
         samples.append({"valid": c["valid"], "arg_nr": c["pos"], "args": [a["text"] for a in c["args"]][:12]})
     samples.append({"flags_case": {k: fcases[len(fcases) // 2][k] for k in ("flags", "text", "decl", "lang", "pos", "param")}})
-    evaluations = sum(v.get("JUDGED", 0) for v in vcov["valid_counts"].values()) + fc["JUDGED"] + lc["JUDGED"]
+    evaluations = u.get("JUDGED", 0) + fc["JUDGED"] + lc["JUDGED"]
     cov = {
         "evaluations": evaluations,
-        "distinct_nontrivial": u.get("BOUNDARY", 0) + fc["EXPECTING"] + lc["REJECTED"],
+        "distinct_nontrivial": u.get("UBOUNDARY", 0) + fc["EXPECTING"] + lc["REJECTED"],
         "rule": "distinct (expression, constant) pairs whose constant is a bound of the expression or 0.1 beside it (counted by TLC, "
                 "expressions are distinct by construction) + not-null/not-bool cases in which a finding is required + configuration texts "
                 "that the loader rejected",
@@ -306,7 +326,7 @@ def main(tier, seed, replay=None):
                              % (FULL, SMALL if tier == "quick" else FULL),
         "samples": samples,
         "valid": vcov, "flags": fc, "load": lc, "phase_wall_s": {"valid": round(t_valid, 1), "flags": round(t_flags, 1), "load": round(t_load, 1)},
-        "open_not_judged": u.get("OPEN", 0),
+        "open_not_judged_all_bindings": u.get("OPEN", 0),
         "model_disagreement": fc["DISAGREE"],
         "deviation_shapes": {k: v["n"] for k, v in shapes.items()},
     }
